@@ -402,11 +402,50 @@ func (e *Exec) exec(s *State, b *ssa.BasicBlock, from int, prev *ssa.BasicBlock)
 		case *ssa.Panic:
 			return []Out{{St: s, Panic: "explicit panic at " + e.pos(i)}}
 		case *ssa.RunDefers:
-			if v, ok := s.Ghost["defers:"+fmt.Sprint(len(s.Frames))]; ok && v != nil {
-				unsupported("defer execution not modelled")
+			// deferred calls of this frame, last in first out; each must have one
+			// outcome (they are clean-up closures here)
+			key := "defers:" + fmt.Sprint(len(s.Frames))
+			dl, _ := s.Ghost[key].(deferList)
+			delete(s.Ghost, key)
+			for k := len(dl) - 1; k >= 0; k-- {
+				d := dl[k]
+				switch f := d.fn.(type) {
+				case Closure:
+					if f.Fn == nil {
+						return []Out{{St: s, Panic: "deferred call of nil func at " + e.pos(i)}}
+					}
+					outs := e.callClosure(s, f, d.args)
+					if len(outs) != 1 || outs[0].Panic != "" {
+						unsupported("deferred call with %d outcomes", len(outs))
+					}
+					s = outs[0].St
+				case Opaque:
+					s.Trace = append(s.Trace, "assume_frame: deferred call of func value "+f.Tag+" touches no tracked state")
+				default:
+					unsupported("deferred call of %T", d.fn)
+				}
 			}
+			env = s.top().Env
 		case *ssa.Defer:
-			unsupported("defer not modelled in %s", b.Parent().Name())
+			if i.Call.IsInvoke() {
+				unsupported("deferred method invocation in %s", b.Parent().Name())
+			}
+			var fv Val
+			switch f := i.Call.Value.(type) {
+			case *ssa.Function:
+				fv = Closure{Fn: f}
+			case *ssa.Builtin:
+				unsupported("deferred builtin in %s", b.Parent().Name())
+			default:
+				fv = e.val(s, i.Call.Value)
+			}
+			var as []Val
+			for _, a := range i.Call.Args {
+				as = append(as, e.val(s, a))
+			}
+			key := "defers:" + fmt.Sprint(len(s.Frames))
+			dl, _ := s.Ghost[key].(deferList)
+			s.Ghost[key] = append(append(deferList{}, dl...), deferred{fn: fv, args: as})
 		case *ssa.Go, *ssa.Select, *ssa.Send, *ssa.MakeChan:
 			unsupported("concurrency construct %T", i)
 		default:
@@ -916,3 +955,10 @@ func subAtom(a string, lo, hi, ln *T) Text {
 	}
 	return atom("sub(" + a + "," + lo.String() + "," + hi.String() + ")")
 }
+
+// deferred calls of one frame (kept in State.Ghost under "defers:<depth>")
+type deferred struct {
+	fn   Val
+	args []Val
+}
+type deferList []deferred
